@@ -11,3 +11,4 @@ func TestMain(m *testing.M) { ev.Main(m) }
 func TestLoginLogs(t *testing.T)      { loginProp.Test(t) }
 func TestEscalationLogs(t *testing.T) { escProp.Test(t) }
 func TestOnOpenLogs(t *testing.T)     { onOpenProp.Test(t) }
+func TestTransportLogs(t *testing.T)  { trProp.Test(t) }
